@@ -777,6 +777,10 @@ func genC13RelayInner(c *ctx) {
 }
 
 func genC13Relay(c *ctx) {
+	os.Unsetenv("TMUX")
+	for i := c.pick(60, 400); i > 0; i-- {
+		c13Sequential(c, i)
+	}
 	c13RunAll(c, false, c.pick(400, 4000))
 	if c.sample == nil { // no model evaluations in this group: describe the runs instead
 		c.sample = []string{"scripted relay runs judged by the direct conservation oracle (see input_distribution: plain:* and perturbed:*)"}
@@ -841,5 +845,198 @@ func genC13Relay(c *ctx) {
 	}
 	if st.Distribution["vp:points_hit"] == 0 {
 		c.violate("relay-overlay-inert", "the overlay build executed no perturbation point: schedule perturbation did not run", "")
+	}
+}
+
+// ---- correspondence on a canonical schedule ----
+//
+// One transfer driven strictly one chunk at a time (every write waits until its effect is
+// visible at the opposite writer), so that what the relay does is determined up to steps
+// that commute.  The same history is written down as a label sequence of the model; the
+// texts of the lines the relay wrote itself and the detector's output are taken from the
+// observation (they are oracle choices of the model), everything else -- what is eaten,
+// what is parked, the order of the flush, the final status -- is predicted by the model and
+// compared with the bytes the two writers received.
+func c13Sequential(c *ctx, idx int) {
+	rng := c.rng
+	cInR, cInW := io.Pipe()
+	sOutR, sOutW := io.Pipe()
+	cOut, sIn := newC13Sink(), newC13Sink()
+	_ = trzsz.NewTrzszRelay(cInR, cOut, sIn, sOutR, trzsz.TrzszOptions{})
+	var cs, ss [][]byte
+	var labels []string
+	okAll := true
+	waitLen := func(s *c13Sink, n int) {
+		if !s.waitFor(func(b []byte) bool { return len(b) >= n }, 2*time.Second) {
+			okAll = false
+		}
+	}
+	cw := func(b []byte) { cs = append(cs, b); cInW.Write(b) }
+	sw := func(b []byte) { ss = append(ss, b); sOutW.Write(b) }
+	settle := func() { time.Sleep(4 * time.Millisecond) }
+	park := func(side string) []string {
+		return []string{side + "R", side + "L", side + "K", side + "V", side + "A", side + "P"}
+	}
+	outcome := []string{"confirm", "confirm", "cancel", "badact", "badcfg"}[rng.Intn(5)]
+	c.count("seq:" + outcome)
+
+	// standby traffic
+	p := append(c13Letters(rng, 1+rng.Intn(8), c13Lower), '\n')
+	cw(p)
+	waitLen(sIn, len(p))
+	labels = append(labels, "IR", "IL", "IS", "IE:0")
+	// trigger
+	id := fmt.Sprintf("%02d%09d00", idx%90+10, rng.Intn(1000000000))
+	trig := append(c13Letters(rng, rng.Intn(5), c13Upper), []byte("::TRZSZ:TRANSFER:R:1.1.5:"+id+":0\r\n")...)
+	sw(trig)
+	waitLen(cOut, len(trig)+2)
+	k0 := cOut.snapshot()
+	labels = append(labels, "OR", "OL", "OD:"+hx(k0)+":1", "OH", "OG", "OS")
+	// the handshake line with following bytes in the same read, and one more chunk
+	act := c13Line("ACT", fmt.Sprintf(`{"verif":1, "lang":"q%d","version":"1.1.5","confirm":%v,"newline":"\n","protocol":2,"binary":true,"support_dir":true}`, idx, outcome != "cancel"))
+	if outcome == "badact" {
+		act = []byte("#ACT:@@@@\n")
+	}
+	junk := c13Letters(rng, rng.Intn(4), c13Lower)
+	x := append(c13Letters(rng, 1+rng.Intn(6), c13Lower), '\n')
+	y := append(c13Letters(rng, 1+rng.Intn(6), c13Lower), '\n')
+	first := append(append(append([]byte(nil), junk...), act...), x...)
+	cw(first)
+	cw(y)
+	labels = append(labels, park("I")...)
+	labels = append(labels, park("I")...)
+	eatI := len(junk) + len(act)
+	sBase := len(p)
+	kBase := len(k0)
+	raw := map[string]bool{string(act): true}
+	insS := func(n int) [][]byte { // the first n relay-written lines on the server side
+		sIn.waitFor(func(b []byte) bool { _, t := c13Strip(b, []string{"ACT", "FAIL"}, raw); return len(t) >= n }, 2*time.Second)
+		_, t := c13Strip(sIn.snapshot(), []string{"ACT", "FAIL"}, raw)
+		var out [][]byte
+		for _, k := range t {
+			out = append(out, k.text)
+		}
+		if len(out) < n {
+			okAll = false
+			for len(out) < n {
+				out = append(out, nil)
+			}
+		}
+		return out
+	}
+	insK := func(n int, rawK map[string]bool) [][]byte {
+		cOut.waitFor(func(b []byte) bool { _, t := c13Strip(b[kBase:], []string{"CFG", "FAIL"}, rawK); return len(t) >= n }, 2*time.Second)
+		_, t := c13Strip(cOut.snapshot()[kBase:], []string{"CFG", "FAIL"}, rawK)
+		var out [][]byte
+		for _, k := range t {
+			out = append(out, k.text)
+		}
+		if len(out) < n {
+			okAll = false
+			for len(out) < n {
+				out = append(out, nil)
+			}
+		}
+		return out
+	}
+	flush := func(nI, nO int) {
+		labels = append(labels, "HK")
+		for i := 0; i < nI; i++ {
+			labels = append(labels, "HPI", "HSI")
+		}
+		labels = append(labels, "HPI")
+		for i := 0; i < nO; i++ {
+			labels = append(labels, "HPO", "HSO")
+		}
+		labels = append(labels, "HPO", "HD", "TU")
+	}
+	final := "S"
+	switch outcome {
+	case "badact":
+		fk := insK(1, nil)
+		fs := insS(1)
+		labels = append(labels, fmt.Sprintf("HA:%d:e", eatI), "HF1:"+hx(fk[0]), "HF2:"+hx(fs[0]))
+		flush(2, 0)
+		waitLen(sIn, sBase+len(fs[0])+len(x)+len(y))
+		settle()
+	case "cancel":
+		as := insS(1)
+		labels = append(labels, fmt.Sprintf("HA:%d:o", eatI), "HSA:"+hx(as[0])+":0")
+		flush(2, 0)
+		waitLen(sIn, sBase+len(as[0])+len(x)+len(y))
+		settle()
+	default:
+		as := insS(1)
+		labels = append(labels, fmt.Sprintf("HA:%d:o", eatI), "HSA:"+hx(as[0])+":1")
+		cfg := c13Line("CFG", fmt.Sprintf(`{"verif":1, "timeout":%d,"newline":"\n","protocol":2,"bufsize":10485760}`, 30+idx%40))
+		if outcome == "badcfg" {
+			cfg = []byte("#CFG:%%%%\n")
+		}
+		rawK := map[string]bool{string(cfg): true}
+		q := append(c13Letters(rng, 1+rng.Intn(6), c13Upper), '\n')
+		sw(append(append([]byte(nil), cfg...), q...))
+		labels = append(labels, park("O")...)
+		if outcome == "badcfg" {
+			fk := insK(1, rawK)
+			fs := insS(2)
+			labels = append(labels, fmt.Sprintf("HC:%d:e", len(cfg)), "HF1:"+hx(fk[0]), "HF2:"+hx(fs[1]))
+			flush(2, 1)
+			waitLen(sIn, sBase+len(as[0])+len(fs[1])+len(x)+len(y))
+			waitLen(cOut, kBase+len(fk[0])+len(q))
+			settle()
+		} else {
+			ck := insK(1, rawK)
+			labels = append(labels, fmt.Sprintf("HC:%d:o", len(cfg)), "HSC:"+hx(ck[0]))
+			flush(2, 1)
+			waitLen(sIn, sBase+len(as[0])+len(x)+len(y))
+			waitLen(cOut, kBase+len(ck[0])+len(q))
+			settle()
+			// transferring: one chunk each way, then the end marker from the server
+			d := []byte("#SUCC:" + string(c13Letters(rng, 1+rng.Intn(5), c13Lower)) + "\n")
+			n0 := len(sIn.snapshot())
+			cw(d)
+			waitLen(sIn, n0+len(d))
+			labels = append(labels, "IR", "IL", "IS", "IE:0")
+			e := []byte("#DATA:" + string(c13Letters(rng, 1+rng.Intn(5), c13Upper)) + "\n")
+			m0 := len(cOut.snapshot())
+			sw(e)
+			waitLen(cOut, m0+len(e))
+			labels = append(labels, "OR", "OL", "OB", "OE:0")
+			if rng.Intn(4) == 0 { // leave the relay transferring
+				final = "T"
+			} else {
+				ex := []byte("#EXIT:done\n")
+				sw(ex)
+				waitLen(cOut, m0+len(e)+len(ex))
+				labels = append(labels, "OR", "OL", "OB", "OE:1")
+				settle()
+			}
+		}
+	}
+	// afterwards
+	z := append(c13Letters(rng, 1+rng.Intn(6), c13Lower), '\n')
+	n0 := len(sIn.snapshot())
+	cw(z)
+	waitLen(sIn, n0+len(z))
+	labels = append(labels, "IR", "IL", "IS", "IE:0")
+	w := append(c13Letters(rng, 1+rng.Intn(6), c13Upper), '\n')
+	m0 := len(cOut.snapshot())
+	sw(w)
+	waitLen(cOut, m0+len(w))
+	if final == "T" {
+		labels = append(labels, "OR", "OL", "OB", "OE:0")
+	} else {
+		labels = append(labels, "OR", "OL", "OD:"+hx(w)+":0", "OS")
+	}
+	time.Sleep(2 * time.Millisecond)
+	res := hx(sIn.snapshot()) + ":" + hx(cOut.snapshot()) + ":-:" + final
+	if !okAll {
+		res += ":timeout"
+		c.count("seq:timeout")
+	}
+	c.emit(true, "relay_run", res, "0", hxs(cs), hxs(ss), strings.Join(labels, " "))
+	if final == "S" {
+		cInW.Close()
+		sOutW.Close()
 	}
 }
